@@ -117,6 +117,8 @@ def short_ty(t):
 def enum_base(ty):
     """`std::option::Option<T>` -> 'Option'"""
     t = re.sub(r"^&(mut )?", "", (ty or "").strip())
+    if t[:1] in "([{*" or t.startswith("dyn ") or t.startswith("impl "):
+        return ""
     t = re.sub(r"<.*$", "", t)
     return t.split("::")[-1]
 
@@ -375,6 +377,12 @@ class Executor:
             return z3.BitVecVal((1 << (b - 1)) - 1 if m.group(1) in SIGNED else (1 << b) - 1, b)
         if t.startswith('"') or t.startswith('b"'):
             return Sym("&str", "str:" + t[:30])
+        # a constant enum value, e.g. `Result::<Infallible, E>::Err(E)` or `PostAction::Continue`
+        mm = re.match(r"^(.*?)(\(.*\))?$", t, flags=re.S)
+        head = mm.group(1)
+        e = self.maybe_enum(head, ty_hint, [Sym("?", "constarg")] if mm.group(2) else [], None)
+        if isinstance(e, Enum):
+            return e
         s = Sym(ty_hint or "?", "const:" + t[:60])
         s.tags["const"] = t
         return s
